@@ -1,7 +1,586 @@
-//! Drivers for the non-engine areas (incremental runner, configuration, resources, watcher).
-use serde_json::Value;
+//! Drivers for the non-engine areas: incremental runner on real files (through the real YAML loader and
+//! resolver), configuration loading / resolution, resource listing / cleaning, the real watcher.
+use crate::config::{ir, yaml};
+use crate::domain::{Target, TargetId};
+use crate::engine::incremental::{self, storage, IncrementalRunResult};
+use crate::engine::verif_api::BuildTerminationReport;
+use crate::probe;
+use crate::verif::js;
+use anyhow::anyhow;
+use async_std::channel;
+use async_std::task;
+use futures::FutureExt;
+use serde_json::{json, Value};
+use std::collections::HashMap;
+use std::io::Write;
+use std::os::unix::ffi::OsStrExt;
+use std::path::{Path, PathBuf};
+use std::time::Duration;
 
-pub fn incr_main(_job: &Value) -> i32 { eprintln!("not built yet"); 2 }
-pub fn config_main(_job: &Value) -> i32 { eprintln!("not built yet"); 2 }
-pub fn res_main(_job: &Value) -> i32 { eprintln!("not built yet"); 2 }
-pub fn watch_main(_job: &Value) -> i32 { eprintln!("not built yet"); 2 }
+fn sv(v: &Value) -> Vec<String> {
+    v.as_array().map(|a| a.iter().map(|x| x.as_str().unwrap().to_string()).collect()).unwrap_or_default()
+}
+
+/// file names may be given as {"hex": "..."} to carry non-UTF-8 bytes
+fn path_of(root: &Path, v: &Value) -> PathBuf {
+    match v {
+        Value::String(s) => root.join(s),
+        Value::Object(o) => {
+            let mut p = root.to_path_buf();
+            for seg in o["segs"].as_array().unwrap() {
+                let bytes: Vec<u8> = match seg {
+                    Value::String(s) => s.as_bytes().to_vec(),
+                    other => {
+                        let h = other["hex"].as_str().unwrap();
+                        (0..h.len()).step_by(2).map(|i| u8::from_str_radix(&h[i..i + 2], 16).unwrap()).collect()
+                    }
+                };
+                p.push(std::ffi::OsStr::from_bytes(&bytes));
+            }
+            p
+        }
+        _ => panic!("bad path"),
+    }
+}
+
+fn content_bytes(spec: &Value) -> Vec<u8> {
+    // {"size": n, "fill": byte, "last": byte}
+    let n = spec["size"].as_u64().unwrap_or(0) as usize;
+    let fill = spec["fill"].as_u64().unwrap_or(97) as u8;
+    let mut v = vec![fill; n];
+    if n > 0 {
+        v[n - 1] = spec["last"].as_u64().unwrap_or(fill as u64) as u8;
+    }
+    v
+}
+
+fn set_mtime(p: &Path, secs: i64) {
+    let c = std::ffi::CString::new(p.as_os_str().as_bytes()).unwrap();
+    let times = [libc::timespec { tv_sec: secs, tv_nsec: 0 }, libc::timespec { tv_sec: secs, tv_nsec: 0 }];
+    unsafe {
+        libc::utimensat(libc::AT_FDCWD, c.as_ptr(), times.as_ptr(), 0);
+    }
+}
+
+fn write_file(root: &Path, w: &Value) {
+    let p = path_of(root, &w["path"]);
+    if let Some(parent) = p.parent() {
+        let _ = std::fs::create_dir_all(parent);
+    }
+    std::fs::write(&p, content_bytes(&w["content"])).unwrap();
+    if let Some(m) = w["mtime"].as_i64() {
+        set_mtime(&p, 1_600_000_000 + m);
+    }
+}
+
+fn load_targets(root: &Path, entry: &str, requested: &[String]) -> anyhow::Result<HashMap<TargetId, Target>> {
+    let cfg = yaml::Config::load(&root.join(entry))?;
+    let cfg: ir::Config = cfg.into();
+    let ids = TargetId::try_parse_many(requested, &cfg.root_project_name)?;
+    cfg.try_into_domain_targets(&ids)
+}
+
+/// One invocation of the real incremental runner for one target, the script played by the driver.
+/// Returns (decision, result).
+fn invoke(root: &Path, op: &Value, hist_id: &str) -> (String, String) {
+    let entry = op["entry"].as_str().unwrap_or(".");
+    let tname = op["t"].as_str().unwrap().to_string();
+    let targets = match load_targets(root, entry, &[tname.clone()]) {
+        Ok(t) => t,
+        Err(e) => return ("none".into(), format!("config-error: {}", e)),
+    };
+    let target = targets.into_iter().map(|(_, t)| t).find(|t| {
+        let id = t.id().to_string();
+        id == tname || id.ends_with(&format!("::{}", tname)) || tname.ends_with(&format!("::{}", id))
+    });
+    let build = match target {
+        Some(Target::Build(b)) => b,
+        _ => return ("none".into(), "not-a-build-target".into()),
+    };
+    let p = probe::get();
+    p.reset(false, false);
+    let crash = op["crash"].as_str().map(|s| s.to_string());
+    let tid = build.metadata.id.to_string();
+    let (hit_tx, hit_rx) = channel::bounded::<()>(4);
+    if let Some(point) = &crash {
+        if point != "script" {
+            let mut sh = p.sh.lock().unwrap();
+            sh.gate_on.insert((point.clone(), tid.clone()));
+        }
+    }
+    let script = op["script"].clone();
+    let root2 = root.to_path_buf();
+    let crash_in_script = crash.as_deref() == Some("script");
+    let hit_tx2 = hit_tx.clone();
+    let script_future = async move {
+        // the script: a prefix of its writes happens even when it fails or is killed
+        for w in script["writes"].as_array().cloned().unwrap_or_default() {
+            write_file(&root2, &w);
+        }
+        for d in script["deletes"].as_array().cloned().unwrap_or_default() {
+            let _ = std::fs::remove_file(path_of(&root2, &d));
+        }
+        if crash_in_script {
+            let _ = hit_tx2.send(()).await;
+            futures::future::pending::<()>().await;
+        }
+        match script["outcome"].as_str().unwrap_or("ok") {
+            "ok" => Ok(BuildTerminationReport::Completed),
+            "cancel" => Ok(BuildTerminationReport::Cancelled),
+            _ => Err(anyhow!("Build failed with exit status: 3")),
+        }
+    };
+    let res = std::panic::catch_unwind(std::panic::AssertUnwindSafe(|| {
+        task::block_on(async {
+            let run = incremental::run(&build.metadata, &build.input, Some(&build.output), script_future).fuse();
+            futures::pin_mut!(run);
+            let mut ticks = 0u32;
+            loop {
+                futures::select! {
+                    r = run => {
+                        return match r {
+                            Ok(IncrementalRunResult::Skipped) => "skipped".to_string(),
+                            Ok(IncrementalRunResult::Completed) => "completed".to_string(),
+                            Ok(IncrementalRunResult::Cancelled) => "cancelled".to_string(),
+                            Err(e) => format!("failed: {}", e),
+                        };
+                    }
+                    _ = hit_rx.recv().fuse() => return "crashed".to_string(),
+                    _ = task::sleep(Duration::from_millis(20)).fuse() => {
+                        // a gate the run is parked at = the instant of the crash
+                        let parked = !p.sh.lock().unwrap().gate_tx.is_empty();
+                        if parked { return "crashed".to_string(); }
+                        ticks += 1;
+                        if ticks > 1000 { return "hang".to_string(); }
+                    }
+                }
+            }
+        })
+    }));
+    let result = match res {
+        Ok(r) => r,
+        Err(_) => "panic".to_string(),
+    };
+    let evs = p.sh.lock().unwrap().events.clone();
+    let decision = evs
+        .iter()
+        .find(|e| e.ev == "incr_checked")
+        .map(|e| if e.get("skip") == Some("true") { "skip" } else { "run" })
+        .unwrap_or("none")
+        .to_string();
+    let _ = hist_id;
+    (decision, result)
+}
+
+fn state_file(root: &Path, op: &Value) -> PathBuf {
+    root.join(op["project_dir"].as_str().unwrap_or(".")).join(".zinoma").join(format!("{}.checksums", op["t"].as_str().unwrap()))
+}
+
+pub fn incr_main(job: &Value) -> i32 {
+    let out_path = job["out"].as_str().unwrap();
+    let scratch = PathBuf::from(job["scratch"].as_str().unwrap()).join(format!("i{}", std::process::id()));
+    let mut out = std::io::BufWriter::new(std::fs::File::create(out_path).unwrap());
+    for h in job["histories"].as_array().unwrap() {
+        let id = h["id"].as_str().unwrap_or("h");
+        let root = scratch.join(id);
+        let _ = std::fs::remove_dir_all(&root);
+        std::fs::create_dir_all(&root).unwrap();
+        for (p, text) in h["files"].as_object().unwrap() {
+            let fp = root.join(p);
+            std::fs::create_dir_all(fp.parent().unwrap()).unwrap();
+            std::fs::write(fp, text.as_str().unwrap()).unwrap();
+        }
+        writeln!(out, "{}", json!({"e": "hist", "id": id, "model": h["model"]})).unwrap();
+        for (k, op) in h["ops"].as_array().unwrap().iter().enumerate() {
+            let kind = op["op"].as_str().unwrap();
+            let mut rec = json!({"e": kind, "k": k, "m": op["m"]});
+            match kind {
+                "write" => write_file(&root, op),
+                "delete" => {
+                    let _ = std::fs::remove_file(path_of(&root, &op["path"]));
+                }
+                "rename" => {
+                    let to = path_of(&root, &op["to"]);
+                    if let Some(parent) = to.parent() {
+                        let _ = std::fs::create_dir_all(parent);
+                    }
+                    let _ = std::fs::rename(path_of(&root, &op["from"]), to);
+                }
+                "invoke" => {
+                    let (decision, result) = invoke(&root, op, id);
+                    rec["decision"] = json!(decision);
+                    rec["result"] = json!(result);
+                }
+                "corrupt" => {
+                    let f = state_file(&root, op);
+                    let _ = std::fs::create_dir_all(f.parent().unwrap());
+                    let bytes: Vec<u8> = match op["flavour"].as_str().unwrap() {
+                        "truncate" => {
+                            let b = std::fs::read(&f).unwrap_or_default();
+                            let k = (op["k"].as_u64().unwrap_or(0) as usize).min(b.len().saturating_sub(1));
+                            rec["len"] = json!(b.len());
+                            b[..k].to_vec()
+                        }
+                        "hex" => {
+                            let hx = op["hex"].as_str().unwrap();
+                            (0..hx.len()).step_by(2).map(|i| u8::from_str_radix(&hx[i..i + 2], 16).unwrap()).collect()
+                        }
+                        "foreign" => std::fs::read(state_file(&root, &json!({"t": op["other"], "project_dir": op["project_dir"]}))).unwrap_or_default(),
+                        "flip" => {
+                            let mut b = std::fs::read(&f).unwrap_or_default();
+                            if !b.is_empty() {
+                                let k = (op["k"].as_u64().unwrap_or(0) as usize) % b.len();
+                                b[k] ^= 0xff;
+                            }
+                            b
+                        }
+                        _ => b"Lorem ipsum".to_vec(),
+                    };
+                    std::fs::write(&f, bytes).unwrap();
+                }
+                "statelen" => {
+                    rec["len"] = json!(std::fs::read(state_file(&root, op)).map(|b| b.len()).unwrap_or(0));
+                }
+                _ => {}
+            }
+            writeln!(out, "{}", rec).unwrap();
+        }
+        let _ = std::fs::remove_dir_all(&root);
+    }
+    out.flush().unwrap();
+    let _ = std::fs::remove_dir_all(&scratch);
+    0
+}
+
+// ------------------------------------------------------------------------------------------------ configuration
+
+/// Load a generated arrangement of project files and resolve the requested targets with zinoma's own
+/// loader and resolver; print verdict, names and the resolved graph.
+pub fn config_main(job: &Value) -> i32 {
+    let out_path = job["out"].as_str().unwrap();
+    let scratch = PathBuf::from(job["scratch"].as_str().unwrap()).join(format!("c{}", std::process::id()));
+    let mut out = std::io::BufWriter::new(std::fs::File::create(out_path).unwrap());
+    for c in job["cases"].as_array().unwrap() {
+        let id = c["id"].as_str().unwrap_or("c");
+        let root = scratch.join(id);
+        let _ = std::fs::remove_dir_all(&root);
+        std::fs::create_dir_all(&root).unwrap();
+        for (p, text) in c["files"].as_object().unwrap() {
+            let fp = root.join(p);
+            std::fs::create_dir_all(fp.parent().unwrap()).unwrap();
+            match text {
+                Value::String(s) => std::fs::write(fp, s).unwrap(),
+                other => {
+                    let h = other["hex"].as_str().unwrap();
+                    let b: Vec<u8> = (0..h.len()).step_by(2).map(|i| u8::from_str_radix(&h[i..i + 2], 16).unwrap()).collect();
+                    std::fs::write(fp, b).unwrap()
+                }
+            }
+        }
+        let entry = c["entry"].as_str().unwrap_or(".");
+        let requested = sv(&c["requested"]);
+        let reps = c["reps"].as_u64().unwrap_or(1);
+        let mut results = vec![];
+        for _ in 0..reps {
+            let r = std::panic::catch_unwind(std::panic::AssertUnwindSafe(|| resolve_case(&root, entry, &requested, c["all"].as_bool().unwrap_or(false))));
+            results.push(match r {
+                Ok(v) => v,
+                Err(_) => json!({"verdict": "panic"}),
+            });
+        }
+        writeln!(out, "{}", json!({"e": "case", "id": id, "m": c["m"], "results": results})).unwrap();
+        let _ = std::fs::remove_dir_all(&root);
+    }
+    out.flush().unwrap();
+    let _ = std::fs::remove_dir_all(&scratch);
+    0
+}
+
+fn resolve_case(root: &Path, entry: &str, requested: &[String], all: bool) -> Value {
+    let cfg = match yaml::Config::load(&root.join(entry)) {
+        Ok(c) => c,
+        Err(e) => return json!({"verdict": "reject", "stage": "load", "error": format!("{:#}", e)}),
+    };
+    let mut dirs: Vec<String> = cfg
+        .get_project_dirs()
+        .iter()
+        .map(|d| d.strip_prefix(std::fs::canonicalize(root).unwrap()).unwrap_or(d).to_string_lossy().to_string())
+        .collect();
+    dirs.sort();
+    let cfg: ir::Config = cfg.into();
+    let mut names = cfg.list_all_available_target_names();
+    names.sort();
+    let ids = if all {
+        cfg.list_all_targets()
+    } else {
+        for r in requested {
+            if !names.contains(r) {
+                return json!({"verdict": "reject", "stage": "cli", "names": names, "error": format!("{} is not an available target name", r)});
+            }
+        }
+        match TargetId::try_parse_many(requested, &cfg.root_project_name) {
+            Ok(ids) => ids,
+            Err(e) => return json!({"verdict": "reject", "stage": "parse", "names": names, "error": format!("{:#}", e)}),
+        }
+    };
+    let root_ids: Vec<String> = ids.iter().map(|i| i.to_string()).collect();
+    match cfg.try_into_domain_targets(&ids) {
+        Err(e) => json!({"verdict": "reject", "stage": "resolve", "names": names, "error": format!("{:#}", e)}),
+        Ok(targets) => {
+            let canon = std::fs::canonicalize(root).unwrap();
+            let rel = |p: &async_std::path::PathBuf| -> String {
+                let p: &std::path::Path = p.as_path().into();
+                p.strip_prefix(&canon).unwrap_or(p).to_string_lossy().to_string()
+            };
+            let mut ts = serde_json::Map::new();
+            for (id, t) in &targets {
+                let kind = match t {
+                    Target::Build(_) => "b",
+                    Target::Service(_) => "s",
+                    Target::Aggregate(_) => "a",
+                };
+                let res = |r: Option<&crate::domain::Resources>| -> Value {
+                    match r {
+                        None => json!(null),
+                        Some(r) => json!({
+                            "files": r.files.iter().map(|f| json!({"paths": f.paths.iter().map(&rel).collect::<Vec<_>>(),
+                                "ext": f.extensions.as_ref().map(|e| e.iter().cloned().collect::<Vec<_>>())})).collect::<Vec<_>>(),
+                            "cmds": r.cmds.iter().map(|c| json!({"cmd": c.cmd, "dir": rel(&c.dir)})).collect::<Vec<_>>(),
+                        }),
+                    }
+                };
+                ts.insert(
+                    id.to_string(),
+                    json!({"kind": kind, "deps": t.dependencies().iter().map(|d| d.to_string()).collect::<Vec<_>>(),
+                           "dir": rel(&t.metadata().project_dir), "input": res(t.input()), "output": res(t.output())}),
+                );
+            }
+            json!({"verdict": "accept", "names": names, "dirs": dirs, "roots": root_ids, "targets": ts})
+        }
+    }
+}
+
+// ------------------------------------------------------------------------------------------------ resources
+
+fn materialise(root: &Path, tree: &Value) {
+    for n in tree.as_array().unwrap() {
+        let p = path_of(root, &n["path"]);
+        if let Some(parent) = p.parent() {
+            let _ = std::fs::create_dir_all(parent);
+        }
+        match n["type"].as_str().unwrap() {
+            "dir" => {
+                let _ = std::fs::create_dir_all(&p);
+            }
+            "file" => std::fs::write(&p, n["content"].as_str().unwrap_or("x")).unwrap(),
+            "link" => {
+                let _ = std::os::unix::fs::symlink(n["to"].as_str().unwrap(), &p);
+            }
+            _ => {}
+        }
+    }
+}
+
+fn snapshot(root: &Path) -> Vec<Value> {
+    let mut v = vec![];
+    for e in walkdir::WalkDir::new(root).sort_by_file_name() {
+        let e = match e {
+            Ok(e) => e,
+            Err(_) => continue,
+        };
+        let p = e.path();
+        if p == root {
+            continue;
+        }
+        let relb = p.strip_prefix(root).unwrap().as_os_str().as_bytes();
+        let relhex: String = relb.iter().map(|b| format!("{:02x}", b)).collect();
+        let md = std::fs::symlink_metadata(p).unwrap();
+        let ty = if md.file_type().is_symlink() {
+            "link"
+        } else if md.is_dir() {
+            "dir"
+        } else {
+            "file"
+        };
+        v.push(json!({"hex": relhex, "path": String::from_utf8_lossy(relb), "type": ty}));
+    }
+    v
+}
+
+pub fn res_main(job: &Value) -> i32 {
+    let out_path = job["out"].as_str().unwrap();
+    let scratch = PathBuf::from(job["scratch"].as_str().unwrap()).join(format!("r{}", std::process::id()));
+    let mut out = std::io::BufWriter::new(std::fs::File::create(out_path).unwrap());
+    for c in job["cases"].as_array().unwrap() {
+        let id = c["id"].as_str().unwrap_or("r");
+        let root = scratch.join(id);
+        let _ = std::fs::remove_dir_all(&root);
+        std::fs::create_dir_all(&root).unwrap();
+        materialise(&root, &c["tree"]);
+        let proj = root.join(c["project"].as_str().unwrap_or("."));
+        let paths: Vec<async_std::path::PathBuf> = c["paths"].as_array().unwrap().iter().map(|p| path_of(&proj, p).into()).collect();
+        // extensions go through zinoma's own normalisation by way of a generated project file when "yaml" is given
+        let mut rec = json!({"e": "res", "id": id, "m": c["m"]});
+        if let Some(y) = c["yaml"].as_str() {
+            std::fs::write(proj.join("zinoma.yml"), y).unwrap();
+            let r = std::panic::catch_unwind(std::panic::AssertUnwindSafe(|| {
+                let targets = load_targets(&root, c["project"].as_str().unwrap_or("."), &sv(&c["requested"]));
+                match targets {
+                    Err(e) => json!({"error": format!("{:#}", e)}),
+                    Ok(ts) => {
+                        let mut listed = serde_json::Map::new();
+                        for (tid, t) in &ts {
+                            let mut per = serde_json::Map::new();
+                            for (what, r) in [("input", t.input()), ("output", t.output())] {
+                                if let Some(r) = r {
+                                    let files = task::block_on(crate::fs::list_files_in_resources(&r.files));
+                                    let mut v: Vec<String> = files
+                                        .iter()
+                                        .map(|p| {
+                                            let p: &std::path::Path = p.as_path().into();
+                                            let canon = std::fs::canonicalize(&root).unwrap();
+                                            p.strip_prefix(&canon).unwrap_or(p).as_os_str().as_bytes().iter().map(|b| format!("{:02x}", b)).collect()
+                                        })
+                                        .collect();
+                                    v.sort();
+                                    per.insert(what.to_string(), json!(v));
+                                }
+                            }
+                            listed.insert(tid.to_string(), Value::Object(per));
+                        }
+                        if c["clean"].as_bool().unwrap_or(false) {
+                            for t in ts.values() {
+                                let _ = task::block_on(crate::clean::clean_target_output_paths(t));
+                            }
+                        }
+                        json!({"listed": listed})
+                    }
+                }
+            }));
+            rec["r"] = match r {
+                Ok(v) => v,
+                Err(_) => json!({"panic": true}),
+            };
+            rec["after"] = json!(snapshot(&root));
+        }
+        let _ = paths;
+        // the watcher's rule on event paths
+        if let Some(evs) = c["events"].as_array() {
+            let mut rel = vec![];
+            for e in evs {
+                let p = path_of(&proj, &e["path"]);
+                let exts: crate::domain::FileExtensions = e["ext"].as_array().map(|a| a.iter().map(|x| x.as_str().unwrap().to_string()).collect());
+                let r = std::panic::catch_unwind(|| {
+                    let ap: async_std::path::PathBuf = p.clone().into();
+                    !crate::work_dir::is_in_work_dir(&ap) && crate::domain::matches_extensions(&p, &exts)
+                });
+                rel.push(match r {
+                    Ok(b) => json!(b),
+                    Err(_) => json!("panic"),
+                });
+            }
+            rec["relevant"] = json!(rel);
+        }
+        writeln!(out, "{}", rec).unwrap();
+        let _ = std::fs::remove_dir_all(&root);
+    }
+    out.flush().unwrap();
+    let _ = std::fs::remove_dir_all(&scratch);
+    0
+}
+
+// ------------------------------------------------------------------------------------------------ watcher
+
+/// The real TargetWatcher (real inotify) over a scratch directory; each operation is closed by a sentinel.
+pub fn watch_main(job: &Value) -> i32 {
+    use crate::engine::verif_api::{TargetInvalidatedMessage, TargetWatcher};
+    let out_path = job["out"].as_str().unwrap();
+    let scratch = PathBuf::from(job["scratch"].as_str().unwrap()).join(format!("w{}", std::process::id()));
+    let mut out = std::io::BufWriter::new(std::fs::File::create(out_path).unwrap());
+    for c in job["cases"].as_array().unwrap() {
+        let id = c["id"].as_str().unwrap_or("w");
+        let root = scratch.join(id);
+        let _ = std::fs::remove_dir_all(&root);
+        std::fs::create_dir_all(&root).unwrap();
+        materialise(&root, &c["tree"]);
+        std::fs::write(root.join("zinoma.yml"), c["yaml"].as_str().unwrap()).unwrap();
+        let canon = std::fs::canonicalize(&root).unwrap();
+        let targets = match load_targets(&canon, ".", &sv(&c["requested"])) {
+            Ok(t) => t,
+            Err(e) => {
+                writeln!(out, "{}", json!({"e": "watch", "id": id, "error": format!("{:#}", e)})).unwrap();
+                continue;
+            }
+        };
+        let tname = c["requested"][0].as_str().unwrap();
+        let target = targets.iter().find(|(k, _)| k.to_string() == tname).map(|(_, t)| t).unwrap();
+        let (tx, rx) = channel::bounded::<TargetInvalidatedMessage>(1);
+        probe::get().reset(false, true);
+        let watcher = TargetWatcher::new(target.id(), target.input(), &tx);
+        let mut rec = json!({"e": "watch", "id": id, "m": c["m"]});
+        let watcher = match watcher {
+            Ok(w) => w,
+            Err(e) => {
+                rec["error"] = json!(format!("{:#}", e));
+                writeln!(out, "{}", rec).unwrap();
+                continue;
+            }
+        };
+        std::thread::sleep(Duration::from_millis(30));
+        let drain = |rx: &channel::Receiver<TargetInvalidatedMessage>| -> bool {
+            let mut got = false;
+            while rx.try_recv().is_ok() {
+                got = true;
+            }
+            got
+        };
+        let sentinel = canon.join(c["sentinel"].as_str().unwrap());
+        let mut results = vec![];
+        let mut nsent = 0u32;
+        for op in c["ops"].as_array().unwrap() {
+            drain(&rx);
+            let p = path_of(&canon, &op["path"]);
+            match op["op"].as_str().unwrap() {
+                "create" | "modify" => {
+                    if let Some(parent) = p.parent() {
+                        let _ = std::fs::create_dir_all(parent);
+                    }
+                    let mut f = std::fs::OpenOptions::new().create(true).append(true).open(&p).unwrap();
+                    let _ = f.write_all(b"x");
+                }
+                "delete" => {
+                    let _ = std::fs::remove_file(&p);
+                }
+                "rename" => {
+                    let _ = std::fs::rename(&p, path_of(&canon, &op["to"]));
+                }
+                "mkdir" => {
+                    let _ = std::fs::create_dir_all(&p);
+                }
+                _ => {}
+            }
+            // did the operation itself trigger? give inotify a moment, bounded by a positive control afterwards
+            std::thread::sleep(Duration::from_millis(c["settle_ms"].as_u64().unwrap_or(40)));
+            let triggered = drain(&rx);
+            // sentinel: a relevant edit that must be detected whatever happened before (watcher still alive)
+            nsent += 1;
+            std::fs::write(&sentinel, format!("s{}", nsent)).unwrap();
+            let mut alive = false;
+            for _ in 0..100 {
+                std::thread::sleep(Duration::from_millis(10));
+                if drain(&rx) {
+                    alive = true;
+                    break;
+                }
+            }
+            results.push(json!({"triggered": triggered, "alive": alive}));
+        }
+        drop(watcher);
+        rec["results"] = json!(results);
+        writeln!(out, "{}", rec).unwrap();
+        let _ = std::fs::remove_dir_all(&root);
+    }
+    out.flush().unwrap();
+    let _ = std::fs::remove_dir_all(&scratch);
+    0
+}
